@@ -499,20 +499,21 @@ func definedIn(v ssa.Value, l *GenericLoop) bool {
 
 // Units of the sequence positions exchanged between replica and primary: "next" = the next sequence expected,
 // "last" = the last sequence applied/acknowledged. Confirmed by reading each producer and consumer:
-//   next: WALBatchApplier.expectedNextSeq; WALStreamRequest.StartSequence (replica fills it from GetExpectedNext());
-//         ReplicaSession.StartSequence (sendInitialEntries reads from it inclusively); Nack.MissingFromSequence
-//   last: WALBatchApplier.maxAppliedSeq / lastAckSeq; Ack.AcknowledgedUpTo; ReplicaSession.LastAckSequence
-//         (sendUpdatedEntries reads from LastAckSequence+1); Replica.lastAppliedSeq
+//
+//	next: WALBatchApplier.expectedNextSeq; WALStreamRequest.StartSequence (replica fills it from GetExpectedNext());
+//	      ReplicaSession.StartSequence (sendInitialEntries reads from it inclusively); Nack.MissingFromSequence
+//	last: WALBatchApplier.maxAppliedSeq / lastAckSeq; Ack.AcknowledgedUpTo; ReplicaSession.LastAckSequence
+//	      (sendUpdatedEntries reads from LastAckSequence+1); Replica.lastAppliedSeq
 var seqUnits = map[string]string{
-	"WALBatchApplier.expectedNextSeq":  "next",
-	"WALStreamRequest.StartSequence":   "next",
-	"ReplicaSession.StartSequence":     "next",
-	"Nack.MissingFromSequence":         "next",
-	"WALBatchApplier.maxAppliedSeq":    "last",
-	"WALBatchApplier.lastAckSeq":       "last",
-	"Ack.AcknowledgedUpTo":             "last",
-	"ReplicaSession.LastAckSequence":   "last",
-	"Replica.lastAppliedSeq":           "last",
+	"WALBatchApplier.expectedNextSeq": "next",
+	"WALStreamRequest.StartSequence":  "next",
+	"ReplicaSession.StartSequence":    "next",
+	"Nack.MissingFromSequence":        "next",
+	"WALBatchApplier.maxAppliedSeq":   "last",
+	"WALBatchApplier.lastAckSeq":      "last",
+	"Ack.AcknowledgedUpTo":            "last",
+	"ReplicaSession.LastAckSequence":  "last",
+	"Replica.lastAppliedSeq":          "last",
 }
 
 func unitKey(fa *ssa.FieldAddr) string {
